@@ -86,10 +86,14 @@ def get_use_tree(
                         continue
                     use_dict_mod.rename_map = merged_rename
                     use_dict[use_stmnt.mod_name] = use_dict_mod
+                widened = False
             else:
                 use_dict[use_stmnt.mod_name] = Use(use_stmnt.mod_name)
+                # An ONLY list widened to the whole module: what the module
+                # uses has to be revisited without the restriction
+                widened = old_len > 0
             # Skip if we have already visited module with the same only list
-            if old_len == len(use_dict_mod.only_list):
+            if not widened and old_len == len(use_dict_mod.only_list):
                 continue
         else:
             if type(use_stmnt) is Use:
